@@ -483,6 +483,24 @@ func cmdCheck(argv []string) int {
 	}
 	assumptions := append([]string{}, meta.Assumptions...)
 	assumptions = append(assumptions, notes["assumptions"]...)
+	if prop == "C11" {
+		// the command table: every Handle(*CommandContext) method in the loaded packages, and whether it is under contract
+		for _, k := range sortedKeys(e.declOf) {
+			fd := e.declOf[k]
+			if fd.Name.Name != "Handle" || fd.Recv == nil || fd.Type.Params == nil || len(fd.Type.Params.List) != 1 {
+				continue
+			}
+			var b strings.Builder
+			printNode(&b, e.fset, fd.Type.Params.List[0].Type)
+			if !strings.HasSuffix(b.String(), "CommandContext") {
+				continue
+			}
+			if c := e.cs.Funcs[k]; c != nil && !c.Trusted {
+				continue
+			}
+			assumptions = append(assumptions, "command handler NOT under contract (nothing is claimed about it): "+k)
+		}
+	}
 	for _, a := range notes["abstracted"] {
 		assumptions = append(assumptions, "abstracted call/operation (result havoc'd, no effect on modelled state assumed): "+a)
 	}
